@@ -2116,7 +2116,7 @@ def compile_import(compiler, expr, root, is_lazy, entries):
 @pattern_macro("assert", [FORM, maybe(FORM)])
 def compile_assert_expression(compiler, expr, root, test, msg):
     test = compiler.compile(test)
-    if msg:
+    if msg is not None:
         msg = compiler.compile(msg)
 
     if not (test.stmts or (msg and msg.stmts)):
